@@ -27,8 +27,12 @@ common = dict(props=["C15", "C02"], tier="quick", **{"class": "bounded"}, bound=
 units = []
 # doubles: the result is compared with the same C expression evaluated in the harness; cvc5's floating-point theory closes that by congruence (z3 bit-blasts as soon as there is more than one instruction instance) (SAT bit-blasting of two adders/dividers does not finish)
 FP = ["--cvc5", "--fpa"]
+# measured 45-70 s on the (shared, loaded) build machine: two double divisions / a floor per instruction instance
+THOROUGH = {"vm.op.div", "vm.op.div.imm", "vm.op.divf", "vm.op.mod", "vm.op.shr", "vm.op.shr.imm"}
 def U(**k):
     u = dict(common); u.update(k)
+    if u["id"] in THOROUGH or u["id"].endswith(".distance"):
+        u["tier"] = "thorough"
     u["assumes"] = [A_STEP, A_GC, A_PANIC] + k.get("assumes", [])
     units.append(u)
 def M(name, find, replace, expect, **k):
